@@ -130,20 +130,20 @@ check("C08", "exploration",
 
 # parts added after the rounds of independently seeded changes (DESIGN.md 9.7)
 EXTRA = {
- "C02": "Every third request token carries multi-byte characters, so cuts also fall inside a character. The repository's own reference caller of the tail API (examples/ping --multiplex, built binary) is driven with segmented, pipelined requests and two close schedules.",
- "C03": "Recorder descriptions vary in shape (no final newline, several, CRLF, trailing blanks) and must come back byte for byte.",
+ "C02": "Streams of small requests with one ending exactly on a multiple of 8 KiB; an upgrading call without the upgrade member. Every third request token carries multi-byte characters, so cuts also fall inside a character. The repository's own reference caller of the tail API (examples/ping --multiplex, built binary) is driven with segmented, pipelined requests and two close schedules.",
+ "C03": "For one case in five a dot-less call travels in front in the same buffer; later name elements may start with a digit. Recorder descriptions vary in shape (no final newline, several, CRLF, trailing blanks) and must come back byte for byte.",
  "C04": "Client: over a scripted fake peer the complete request is on the wire the moment oneway()/call() returns. Server: oneway / more+oneway Upgrade requests behind every symbol.",
  "C05": "Client streams contain error replies that carry continues:true (the stream goes on). Server scripts also run with the refused reply's error handed to the service and a further request buffered behind.",
  "C06": "Extra mutation family: unknown members with invalid UTF-8; after a fault the peer's writes must be refused (fully closed); listen() cases are journaled so that a process death is attributed to its input. Thorough: 12 parallel libFuzzer processes on c06_handle.",
- "C07": "Streams with an error reply carrying continues:true, a call after an iterator dropped mid-stream (must never receive a reply of that stream), and every final reply read through a typed call object followed by another call.",
+ "C07": "A second thread's call while a plain call waits for its (held back) reply must fail busy at once. Streams with an error reply carrying continues:true, a call after an iterator dropped mid-stream (must never receive a reply of that stream), and every final reply read through a typed call object followed by another call.",
  "C08": "Two hand-written definitions are part of every run (an error named like a standard error, map of nullable values, object members with nulls).",
- "C09": "Every other definition starts with a documentation comment; histories of build-script helper runs that share an output directory (rejected / valid / rejected-not-newer).",
+ "C09": "One cargo_build_many call with several definitions (a rejected one anywhere fails the call). Every other definition starts with a documentation comment; histories of build-script helper runs that share an output directory (rejected / valid / rejected-not-newer).",
  "C10": "The parser's documentation text is compared character for character; for every other definition the colored rendering is taken before the plain one; definitions with 32..61 interleaved members; member order read off the formatted text when the parser misreads the input. Thorough: libFuzzer target c10_format.",
  "C11": "Documentation text must run from the first '#' to the last non-blank character; definitions with 32..61 interleaved members.",
- "C13": "Runs in a journaling child (a process death is attributed to its round); peers: legal request nested 120 deep, idle/silent peers that call after sitting; a connection closed although none of its own requests ends a connection; fresh-server scenarios with 1.3-11 s of silence between two bursts (one connection open throughout); bursts of 3..16 connections that all stay open.",
+ "C13": "Eight clients pipelining 2000 requests each to four interfaces. Runs in a journaling child (a process death is attributed to its round); peers: legal request nested 120 deep, idle/silent peers that call after sitting; a connection closed although none of its own requests ends a connection; fresh-server scenarios with 1.3-11 s of silence between two bursts (one connection open throughout); bursts of 3..16 connections that all stay open.",
  "C14": "listen()-level probes (6 rounds x 12 configurations): bound, and a connection left unserved for 5 s that repeats within three further runs is a stranded connection; grown-quiet-full-again probes (one connection open through 1.3-11 s of silence).",
- "C15": "Saturated-pool scenarios; a connection that connected 150 ms or more before the flag must be served before listen() returns.",
- "C16": "Commands that serve nothing (with_activate / with_bridge) must yield an error, not a wait. Additional transports: services started by the harness like a service manager (descriptor 3 + LISTEN_*, default listen configuration) with a blocking and a non-blocking inherited listener; four shell forms of the bridge command.",
+ "C15": "A stop flag configured but never set; a client that connects 400 ms or more after the flag must not be served. Saturated-pool scenarios; a connection that connected 150 ms or more before the flag must be served before listen() returns.",
+ "C16": "A stale socket file lies in the way of every filesystem address; on every transport a connection stays silent for 350 ms between two calls. Commands that serve nothing (with_activate / with_bridge) must yield an error, not a wait. Additional transports: services started by the harness like a service manager (descriptor 3 + LISTEN_*, default listen configuration) with a blocking and a non-blocking inherited listener; four shell forms of the bridge command.",
  "C17": "Error names of other interfaces that share a standard error's last element, and near-misses.",
  "C18": "A second world whose service writes JSON with blanks; close while a 300 ms reply is pending; full client hang-up (stdin and stdout) while a 400 ms reply is pending (exit status 0 in all modes); bytes that arrive only after the client closed its side count as slow; a raw greeter service that speaks first after the upgrade (same write as the reply / 300 ms later while the client is silent).",
  "C19": "Test steps sent again after End; five respellings of the client's own id; duplicate-step race (one id, one step, six connections at once: exactly one success); near-miss values (float * (1+1e-10), integer - 1, letter case).",
